@@ -75,14 +75,61 @@ def run_scenario(sc, max_loops=60000):
     if sc.get("know", True):
         a.know(b)
         b.know(a)
+    # more peers: "peers": [{"devid": 30, "silent": true, ...stack kwargs}]  (requests listed under "extra_requests")
+    peers = {}
+    for pc in sc.get("peers", []):
+        kw = {k: v for k, v in pc.items() if k not in ("devid", "silent")}
+        st = net.add_stack(pc["devid"], **kw)
+        st.server_mode = "silent" if pc.get("silent") else "ack"
+        st.response_payload = pattern(20, pc["devid"])
+        peers[pc["devid"]] = st
+    # long-lived background timers, cancelled / re-armed while transactions are in flight
+    bg = []
+    if sc.get("background"):
+        from bacpypes.task import FunctionTask
+        for due in sc["background"].get("timers", []):
+            t = FunctionTask(lambda: None)
+            t.install_task(when=net.vt.now + due)
+            bg.append(t)
+        for at, idx, newdue in sc["background"].get("rearm", []):
+            def rearm(idx=idx, newdue=newdue):
+                bg[idx].suspend_task()
+                bg[idx].install_task(when=net.vt.now + newdue)
+            ft = FunctionTask(rearm)
+            ft.install_task(when=net.vt.now + at)
     b.server_mode = sc.get("mode", "ack")
     b.response_payload = pattern(sc.get("slen", 0), 1)
     req_payload = None if sc.get("clen") is None else pattern(sc["clen"], 2)
     t0 = net.vt.now
     n = sc.get("requests", 1)
+    reenter = sc.get("reenter")          # IOCB completion callback submits a follow-up request
+    if reenter and sc.get("iocb"):
+        budget = {"n": reenter.get("count", 1)}
+        orig_done = a._iocb_done
+
+        def done(idx, iocb):
+            orig_done(idx, iocb)
+            if budget["n"] > 0:
+                budget["n"] -= 1
+                target = b if reenter.get("to", "same") == "same" else peers[reenter["to"]]
+                a.send_cpt(target, req_payload)
+        a._iocb_done = done
     for k in range(n):
         a.send_cpt(b, req_payload)
-    ok = net.run(max_loops=max_loops)
+    for devid, at in sc.get("extra_requests", []):
+        if at == 0:
+            a.send_cpt(peers[devid], req_payload)
+        else:
+            from bacpypes.task import FunctionTask
+            ft = FunctionTask(lambda d=devid: a.send_cpt(peers[d], req_payload))
+            ft.install_task(when=net.vt.now + at)
+    until = None
+    if bg:
+        # run until the transactions are over, not until the far-future background timers
+        until = net.vt.now + sc["background"].get("horizon", 120.0)
+    ok = net.run(until=until, max_loops=max_loops)
+    for t in bg:
+        t.suspend_task()
     res = {
         "terminated": ok,
         "elapsed": net.vt.now - t0,
@@ -102,6 +149,84 @@ def run_scenario(sc, max_loops=60000):
             "b_retries": b.device.numberOfApduRetries},
     }
     return res
+
+
+def run_script(sc, max_loops=60000):
+    """a client with several peers; sc["script"] is a list of operations executed in order:
+         ["req", devid]            submit a confirmed request to that peer
+         ["bg", due]               install a long-lived housekeeping timer due in `due` seconds
+         ["cancel", i]             suspend housekeeping timer i
+         ["rearm", i, due]         re-install housekeeping timer i
+         ["run", dt]               let virtual time pass
+       Returns per-request outcome times.  Peers listed in sc["silent"] never answer."""
+    from bacpypes.task import FunctionTask
+    net = _e2e.E2ENet()
+    a = net.add_stack(10, use_iocb=sc.get("iocb", False), **sc.get("a", {}))
+    peers = {}
+    for devid in sc["peers"]:
+        st = net.add_stack(devid, max_apdu=128)
+        st.server_mode = "silent" if devid in sc.get("silent", []) else "ack"
+        st.response_payload = pattern(12, devid)
+        peers[devid] = st
+    t0 = net.vt.now
+    bg = []
+    sent = []
+    for op in sc["script"]:
+        if op[0] == "req":
+            sent.append((op[1], net.vt.now - t0))
+            a.send_cpt(peers[op[1]], pattern(8, op[1]))
+        elif op[0] == "bg":
+            t = FunctionTask(lambda: None)
+            t.install_task(when=net.vt.now + op[1])
+            bg.append(t)
+        elif op[0] == "cancel" and op[1] < len(bg):
+            bg[op[1]].suspend_task()
+        elif op[0] == "rearm" and op[1] < len(bg):
+            bg[op[1]].install_task(when=net.vt.now + op[2])
+        elif op[0] == "run":
+            net.run(until=net.vt.now + op[1], max_loops=max_loops)
+    ok = net.run(until=net.vt.now + sc.get("horizon", 100.0), max_loops=max_loops)
+    for t in bg:
+        t.suspend_task()
+    ok = net.run(until=net.vt.now + 1.0, max_loops=max_loops) and ok
+    return {"terminated": ok, "sent": sent,
+            "conf": [(round(c[0] - t0, 6), c[1], c[2], c[4]) for c in a.confirmations],
+            "raised": a.raised, "errors": net.vt.errors[:5],
+            "residue": {"a": a.residue(), "heap": len(net.vt.pending())},
+            "iocb": [{k: v for k, v in e.items() if k != "iocb"} for e in a.iocb_events],
+            "bound": (a.device.numberOfApduRetries + 1) * a.device.apduTimeout / 1000.0 + 0.5}
+
+
+def check_script(sc, res):
+    out = []
+    if not res["terminated"]:
+        return [("nontermination", "still busy after the loop limit")]
+    per_peer_sent = {}
+    for devid, t in res["sent"]:
+        per_peer_sent.setdefault(str(devid), []).append(t)
+    per_peer_conf = {}
+    for t, kind, inv, src in res["conf"]:
+        per_peer_conf.setdefault(str(src), []).append((t, kind))
+    for devid, times in per_peer_sent.items():
+        got = per_peer_conf.get(devid, [])
+        if len(got) != len(times) - 0:
+            out.append(("outcome-count", "%d request(s) to %s, %d outcome(s)" % (len(times), devid, len(got))))
+            continue
+        prev_done = 0.0
+        for ts, (tc, kind) in zip(sorted(times), sorted(got)):
+            # through the IOCB interface requests to one peer are served one at a time: the clock of a
+            # queued request starts when its predecessor is finished
+            start = max(ts, prev_done) if sc.get("iocb") else ts
+            prev_done = tc
+            if tc - start > res["bound"]:
+                out.append(("time-bound", "request to %s submitted at %.1f s (started %.1f s) got its outcome (%s) at %.1f s; bound %.1f s" % (
+                    devid, ts, start, kind, tc, res["bound"])))
+    r = res["residue"]
+    if r["a"]["client"] or r["a"]["server"] or r["a"].get("queues"):
+        out.append(("residue-transaction", "transactions left: %r" % (r,)))
+    if r["heap"]:
+        out.append(("residue-timer", "%d timer(s) still scheduled" % r["heap"]))
+    return out
 
 
 def brief(res):
@@ -133,7 +258,7 @@ def check_c04(sc, res):
         out.append(("nontermination", "stack still busy after the loop limit (unbounded activity)"))
         return out
     refused = len(res["raised"])
-    want = n - refused
+    want = n + len(sc.get("extra_requests", [])) + (sc.get("reenter", {}).get("count", 1) if sc.get("reenter") and sc.get("iocb") else 0) - refused
     got = len(res["conf"])
     if sc.get("iocb"):
         for i, e in enumerate(res["iocb"]):
@@ -144,7 +269,12 @@ def check_c04(sc, res):
     for c in res["conf"]:
         if c[1] not in ("ack", "simple", "error", "reject", "abort"):
             out.append(("outcome-kind", "outcome of kind %s" % c[1]))
-    if res["elapsed"] > time_bound(res):
+    if sc.get("background"):
+        # the run lasts until the horizon; judge each outcome's own time instead
+        late = [c for c in res["conf"] if c[0] > time_bound(res)]
+        if late:
+            out.append(("time-bound", "an outcome was delivered after %.1f s, bound %.1f s" % (late[0][0], time_bound(res))))
+    elif res["elapsed"] > time_bound(res):
         out.append(("time-bound", "took %.1f s, bound %.1f s" % (res["elapsed"], time_bound(res))))
     r = res["residue"]
     if r["a"]["client"] or r["a"]["server"] or r["b"]["client"] or r["b"]["server"] or r["a"].get("queues"):
